@@ -96,7 +96,8 @@ def expressible(fmt, cls, kinds):
 ALPHABET = {"numpy": list(range(0, 34)), "clearn": list(range(-1, 7)), "pcalg": [0, 1, 2, 3]}
 
 RULE = ("rt: for ADMG, CPDAG, PAG every acyclic graph on 2 and 3 nodes over all per-pair configurations the class admits "
-        "(ADMG incl. two and three edge types on a pair, PAG incl. -o / o-), 3 node insertion orders, exported to all four "
+        "(ADMG incl. two and three edge types on a pair, PAG incl. -o / o-), 3 node insertion orders plus construction through "
+        "the class constructor's per-type edge lists (each layer with its own node order), exported to all four "
         "formats and re-imported (4 nodes sampled; thorough: more); mat: every zero-diagonal 2x2 matrix over each format's "
         "alphabet (numpy 0..33, causal-learn -1..6, pcalg 0..3) in 2 orders and every well-formed 3x3 matrix, import then "
         "export; tet: Tetrad token lists for all such graphs through a scratch file (string labels, random line orientation); "
@@ -159,6 +160,10 @@ def gen_cases(tier, rng):
             for g in enum_graphs(cls, n):
                 for order in _orders(n, rng):
                     yield {"kind": "rt", "cls": cls, "g": dict(g, V=order)}
+                if g["D"] or g["B"] or g["U"] or g["C"]:
+                    # built through the constructor's per-type edge lists: every layer has its own node order
+                    for k in range(2 if n == 3 else 1):
+                        yield {"kind": "rt", "cls": cls, "g": dict(g, V=rng.choice(_orders(n, rng))), "ctor": rng.randrange(1 << 30)}
                 for f in ("numpy", "clearn", "pcalg"):
                     if f == "pcalg" and cls == "ADMG":
                         continue
@@ -174,6 +179,7 @@ def gen_cases(tier, rng):
             order = list(range(4))
             rng.shuffle(order)
             yield {"kind": "rt", "cls": cls, "g": dict(g, V=order)}
+            yield {"kind": "rt", "cls": cls, "g": dict(g, V=order), "ctor": rng.randrange(1 << 30)}
             yield {"kind": "tet", "cls": cls, "order": order, "toks": _gen_tokens(cls, g, rng)}
     # --- every zero-diagonal 2x2 matrix over the alphabet, both orders
     for f in ("numpy", "clearn", "pcalg"):
@@ -200,6 +206,9 @@ def gen_cases(tier, rng):
                 subsets = ([t for t in slots if rng.random() < p] for p in [0.2, 0.4, 0.6] * (100 if not thorough else 1000))
             for st in subsets:
                 yield {"kind": "ts", "directed": directed, "nv": 2, "ml": ml, "st": [list(t) for t in st]}
+                if st and ml <= 2:
+                    yield {"kind": "ts", "directed": directed, "nv": 2, "ml": ml, "st": [list(t) for t in reversed(st)],
+                           "edges_first": True}
         for ml in (1, 2):
             cells = [(x, y, lag) for x in range(2) for y in range(2) for lag in range(ml + 1) if not (lag == 0 and x == y)]
             for r in range(len(cells) + 1):
@@ -303,7 +312,30 @@ def decode(case, v):
 
 # ------------------------------------------------------------------ implementation side
 def _build(cls, g, case):
-    return {"ADMG": gr.to_admg, "CPDAG": gr.to_cpdag, "PAG": gr.to_pag}[cls](g, case)
+    if case.get("ctor") is None:
+        return {"ADMG": gr.to_admg, "CPDAG": gr.to_cpdag, "PAG": gr.to_pag}[cls](g, case)
+    # constructor variant: each edge type is passed as its own edge list (shuffled, symmetric edges randomly flipped),
+    # so every layer lists the nodes in its own order; nodes without edges are added afterwards
+    import random
+    import pywhy_graphs
+    rnd = random.Random(case["ctor"])
+    lab, inv = gr.labeler(case)
+    for v in g["V"]:
+        lab(v)
+    kw = {}
+    for key, name in (("D", "directed"), ("B", "bidirected"), ("U", "undirected"), ("C", "circle")):
+        if key in ("B", "C") and cls == "CPDAG" or key == "C" and cls == "ADMG":
+            continue
+        es = [(lab(a), lab(b)) for a, b in g[key]]
+        rnd.shuffle(es)
+        if key in "BU":
+            es = [(b, a) if rnd.random() < 0.5 else (a, b) for a, b in es]
+        kw["incoming_%s_edges" % name] = es
+    G = getattr(pywhy_graphs, cls)(**kw)
+    rest = [lab(v) for v in g["V"] if lab(v) not in set(G.nodes)]
+    rnd.shuffle(rest)
+    G.add_nodes_from(rest)
+    return G, lab, inv
 
 
 def _quiet(f, *a, **kw):
@@ -477,9 +509,12 @@ def run_impl(case):
         return _ts_edges_obs([(inv(a[0]), -int(a[1]), inv(b[0]), -int(b[1])) for a, b in G.edges()], case["directed"])
     if k == "ts":
         G = K(max_lag=case["ml"])
-        G.add_variables_from(var_order)
+        if not case.get("edges_first"):
+            G.add_variables_from(var_order)
         for x, y, lag in case["st"]:
             G.add_edge((lab(x), -lag), (lab(y), 0))
+        if case.get("edges_first"):
+            G.add_variables_from(list(reversed(var_order)))
         arr = tsgraph_to_numpy(G, var_order=var_order)
         out = {"arr": [[[int(v != 0) for v in r] for r in p] for p in arr.tolist()], "orig_edges": edges(G)}
         H = numpy_to_tsgraph(arr, var_order=var_order, create_using=K)
@@ -551,7 +586,7 @@ def nontrivial(case, model):
 def key(case):
     k = case["kind"]
     if k == "rt":
-        return (k, case["cls"], gr.canon(case["g"]))
+        return (k, case["cls"], gr.canon(case["g"]), case.get("ctor") is not None)
     if k == "mat":
         return (k, case["cls"], case["fmt"], str(_canon_matrix(case["m"], case["order"])))
     if k == "tet":
